@@ -73,9 +73,9 @@ func linGenPool(r *common.Rand) (map[string]common.JEvent, []string) {
 		ids = append(ids, e.ID)
 		return e.ID
 	}
-	extreme := r.Chance(10)
+	extreme := r.Chance(15)
 	ts := func() int64 {
-		if extreme && r.Chance(40) {
+		if extreme && r.Chance(50) {
 			return common.Pick(r, common.ExtremeTS) // created_at at the ends of int64
 		}
 		return int64(r.Intn(6))
@@ -134,15 +134,23 @@ func linGenPool(r *common.Rand) (map[string]common.JEvent, []string) {
 		add(e)
 	}
 	// a deletion request that names an earlier deletion request of the pool first, then a further target
-	if r.Chance(25) {
+	if r.Chance(40) {
 		var k5 []string
 		for _, id := range ids {
 			if pool[id].Kind == 5 {
 				k5 = append(k5, id)
 			}
 		}
+		if len(k5) == 0 {
+			k5 = append(k5, add(common.JEvent{PK: "pa", TS: ts(), Kind: 5, Tags: [][]string{{"e", common.Pick(r, regular)}}}))
+		}
 		if len(k5) > 0 {
 			first := common.Pick(r, k5)
+			if f := pool[first]; len(f.Tags) < 2 {
+				// the named request names two things itself
+				f.Tags = append(f.Tags, []string{"a", "30000:" + f.PK + ":y"}, []string{"e", common.Pick(r, regular)})
+				pool[first] = f
+			}
 			e := common.JEvent{PK: pool[first].PK, TS: ts(), Kind: 5, Tags: [][]string{{"e", first}, {"e", common.Pick(r, regular)}}}
 			if r.Chance(40) {
 				e.Tags = append(e.Tags, []string{"a", "30000:" + e.PK + ":x"})
